@@ -114,6 +114,9 @@ class Method:
             raise Untranslatable(f"constant {e.value!r}")
         if isinstance(e, ast.Attribute):
             src = ast.unparse(e)
+            special = self.special(src)
+            if special is not None:
+                return special
             if src == "current.target.columns" or src == "target.columns":
                 return "tcols", "cols"
             if src == "current.columns":
@@ -150,6 +153,8 @@ class Method:
                 return f"(Cols.insert {l} {r[1:-1]})", "cols"
             if isinstance(e.op, ast.BitOr) and lt == "cols" and rt == "cols":
                 return f"(Cols.union {l} {r})", "cols"
+            if isinstance(e.op, ast.BitAnd) and lt == "cols" and rt == "cols":
+                return f"(Cols.inter {l} {r})", "cols"
             if isinstance(e.op, ast.Sub) and lt == "cols" and rt in ("cols", "cols1"):
                 return f"(Cols.diff {l} {r})", "cols"
             raise Untranslatable(f"binary operator in {ast.unparse(e)}")
@@ -164,6 +169,10 @@ class Method:
                     return f"(Cols.subset {r} {l})", "bool"
                 if isinstance(op, ast.Eq):
                     return f"(Cols.seteq {l} {r})", "bool"
+            if lt == "cols" and rt == "cols" and isinstance(op, ast.NotEq):
+                return f"(!(Cols.seteq {l} {r}))", "bool"
+            if lt == "engine" and rt == "engine" and isinstance(op, (ast.Eq, ast.NotEq)):
+                return f"({l} {'==' if isinstance(op, ast.Eq) else '!='} {r})", "bool"
             if lt == "tag" and rt == "cols" and isinstance(op, ast.In):
                 return f"(decide ({l} ∈ {r}))", "bool"
             if lt == "tag" and rt == "cols" and isinstance(op, ast.NotIn):
@@ -197,6 +206,11 @@ class Method:
             return f"(if {c} then {a} else {b})", at
         if isinstance(e, ast.Call):
             fn = ast.unparse(e.func)
+            special = self.special(ast.unparse(e))
+            if special is not None:
+                return special
+            if fn == "set" and len(e.args) == 1:
+                return self.expr(e.args[0])
             if fn == "isinstance" and len(e.args) == 2:
                 x, xt = self.expr(e.args[0])
                 k = ast.unparse(e.args[1])
@@ -253,6 +267,10 @@ class Method:
                 return self.expr(e.args[0])
             raise Untranslatable(f"call {ast.unparse(e)[:60]}")
         raise Untranslatable(f"expression {ast.unparse(e)[:60]}")
+
+    def special(self, src: str):
+        """Subclass hook: dictionary entries specific to one kind of method."""
+        return None
 
     # ------------------------------------------------------------------ statements (CPS)
     def ret(self, e) -> str:
@@ -337,33 +355,27 @@ class Method:
             v = f"{s.target.id}_{self.counter}"
             self.env[s.target.id] = (v, "cols")
             return f"(let {v} := Cols.diff {cur} {x}; {k()})"
+        if isinstance(s, ast.Expr) and isinstance(s.value, ast.Call) and isinstance(s.value.func, ast.Attribute) \
+                and isinstance(s.value.func.value, ast.Name) and s.value.func.value.id in self.env \
+                and len(s.value.args) == 1:
+            name = s.value.func.value.id
+            cur, ct = self.env[name]
+            x, t = self.expr(s.value.args[0])
+            meth = s.value.func.attr
+            if ct == "cols" and t == "cols" and meth in ("difference_update", "update", "intersection_update"):
+                fn = {"difference_update": "Cols.diff", "update": "Cols.union", "intersection_update": "Cols.inter"}[meth]
+                self.counter += 1
+                v = f"{name}_{self.counter}"
+                self.env[name] = (v, "cols")
+                return f"(let {v} := {fn} {cur} {x}; {k()})"
+            if ct == "cols" and t == "tag" and meth == "add":
+                self.counter += 1
+                v = f"{name}_{self.counter}"
+                self.env[name] = (v, "cols")
+                return f"(let {v} := Cols.insert {cur} {x}; {k()})"
+            raise Untranslatable(f"method call statement {ast.unparse(s)[:50]}")
         if isinstance(s, ast.Match):
-            subj, st = self.expr(s.subject)
-            if st != "op":
-                raise Untranslatable("match on a non-operation")
-            arms = []
-            has_default = False
-            for case in s.cases:
-                pats = self.patterns(case.pattern)
-                saved = dict(self.env)
-                for lean_pat, binds in pats:
-                    self.env = dict(saved)
-                    self.env.update(binds)
-                    body = self.block(case.body, k)
-                    if case.guard is not None:
-                        g, gt = self.expr(case.guard)
-                        if gt != "bool":
-                            raise Untranslatable("guard is not a bool")
-                        # a failed guard falls through to the statements after the match
-                        # (sound because no later case of the matches in the source overlaps)
-                        body = f"(if {g} then {body} else {k()})"
-                    arms.append(f"| {lean_pat} => {body}")
-                    if lean_pat == "_":
-                        has_default = True
-                self.env = saved
-            if not has_default:
-                arms.append(f"| _ => {k()}")
-            return f"(match {subj} with {' '.join(arms)})"
+            return self.match_stmt(s, k)
         if isinstance(s, ast.For) and isinstance(s.target, ast.Name):
             it, itt = self.expr(s.iter)
             if itt == "terms" and len(s.body) == 1 and isinstance(s.body[0], ast.If) and not s.body[0].orelse \
@@ -377,6 +389,34 @@ class Method:
                 return f"(if {it}.all (fun {s.target.id} => !{c}) then {k()} else {raise_code})"
             raise Untranslatable("for loop")
         raise Untranslatable(f"statement {type(s).__name__}: {ast.unparse(s)[:50]}")
+
+    def match_stmt(self, s, k) -> str:
+        subj, st = self.expr(s.subject)
+        if st not in ("op", "rel"):
+            raise Untranslatable("match on a non-operation")
+        arms = []
+        has_default = False
+        for case in s.cases:
+            pats = self.patterns(case.pattern)
+            saved = dict(self.env)
+            for lean_pat, binds in pats:
+                self.env = dict(saved)
+                self.env.update(binds)
+                body = self.block(case.body, k)
+                if case.guard is not None:
+                    g, gt = self.expr(case.guard)
+                    if gt != "bool":
+                        raise Untranslatable("guard is not a bool")
+                    # a failed guard falls through to the statements after the match
+                    # (sound because no later case of the matches in the source overlaps)
+                    body = f"(if {g} then {body} else {k()})"
+                arms.append(f"| {lean_pat} => {body}")
+                if lean_pat == "_":
+                    has_default = True
+            self.env = saved
+        if not has_default:
+            arms.append(f"| _ => {k()}")
+        return f"(match {subj} with {' '.join(arms)})"
 
     def patterns(self, p) -> list[tuple[str, dict]]:
         if isinstance(p, ast.MatchAs) and p.pattern is None and p.name is None:
@@ -419,6 +459,251 @@ class Method:
         return sig + "\n  " + body
 
 
+class PJoinMethod(Method):
+    """`PartialJoin.columns_required` / `PartialJoin.commute` (T-f): `self` is a model `PJoin` value `p`."""
+
+    DICT = {
+        "self": ("p", "pjoin"),
+        "self.binary.predicate.columns_required": ("p.join.pred.columnsRequired", "cols"),
+        "self.fixed.columns": ("p.fixed.columns", "cols"),
+        "self.binary.min_columns": ("p.join.minCols", "cols"),
+        "self.columns_required": ("(PartialJoin_columns_required p)", "cols"),
+        "self.applied_columns(current)": ("(p.appliedColumns ccols)", "cols"),
+    }
+
+    def __init__(self, cls, name):
+        self.cls = cls
+        self.cname = "PartialJoin"
+        self.name = name
+        f = inspect.getattr_static(cls, name)
+        if isinstance(f, property):
+            f = f.fget
+        src = textwrap.dedent(inspect.getsource(f))
+        self.fdef = next(n for n in ast.walk(ast.parse(src)) if isinstance(n, ast.FunctionDef))
+        self.env = {}
+        self.counter = 0
+
+    def special(self, src):
+        return self.DICT.get(src)
+
+    def expr(self, e):
+        if isinstance(e, ast.Name) and e.id == "self":
+            return "p", "pjoin"
+        if isinstance(e, ast.Call) and ast.unparse(e.func) == "UnaryCommutator":
+            kw = {k.arg: k.value for k in e.keywords}
+            pos = list(e.args)
+            first = kw.get("first", pos[0] if pos else None)
+            second = kw.get("second", pos[1] if len(pos) > 1 else None)
+            done = kw.get("done", pos[2] if len(pos) > 2 else None)
+            f, ft = self.expr(first)
+            s2, st = self.expr(second)
+            d = "true"
+            if done is not None:
+                d, dt = self.expr(done)
+            if ft == "none":
+                f = "none"
+            elif ft == "pjoin":
+                f = f"(some {f})"
+            else:
+                raise Untranslatable("first of a PartialJoin commutator")
+            if st != "op":
+                raise Untranslatable("second is not an operation")
+            return f"({f}, {s2}, {d})", "commutator"
+        return super().expr(e)
+
+    def ret(self, e):
+        x, t = self.expr(e)
+        if self.name == "commute" and t == "commutator":
+            return x
+        if self.name == "columns_required" and t == "cols":
+            return x
+        raise Untranslatable(f"return {ast.unparse(e)[:50]}")
+
+    def default_end(self):
+        raise Untranslatable("control reaches the end of the function")
+
+    def lean(self):
+        if self.name == "commute":
+            sig = "def PartialJoin_commute (p : PJoin) (cur : UOp) (tcols ccols : Cols) : Option PJoin × UOp × Bool :="
+        else:
+            sig = "def PartialJoin_columns_required (p : PJoin) : Cols :="
+        return sig + "\n  " + self.block(self.fdef.body, self.default_end)
+
+
+REL_CTORS = {
+    "LeafRelation": ".leaf _ _ _ _ _ _ _ _",
+    "Materialization": ".mat _ _ {t}",
+    "Transfer": ".transfer _ _ {t}",
+    "Select": ".select _ _ _ _ _ _ _ _ {t}",
+}
+MARKERS = ["Materialization", "Transfer", "Select"]
+
+
+class RelMethod(Method):
+    """Recursive classmethods over relation classes: `Materialization.simplify`, `Transfer.simplify` (T-f)."""
+
+    def __init__(self, cls, name, lean_name, sig, rec_call, ret_kind):
+        self.cls = cls
+        self.cname = cls.__name__
+        self.name = name
+        self.lean_name = lean_name
+        self.sig = sig
+        self.rec_call = rec_call          # python source of the recursive call -> lean prefix
+        self.ret_kind = ret_kind          # "bool" | "optrel"
+        f = inspect.getattr_static(cls, name)
+        f = getattr(f, "__func__", f)
+        src = textwrap.dedent(inspect.getsource(f))
+        self.fdef = next(n for n in ast.walk(ast.parse(src)) if isinstance(n, ast.FunctionDef))
+        self.env = {"target": ("target", "rel")}
+        self.counter = 0
+        self.covered: set[str] = set()
+
+    def special(self, src):
+        if src == "target.is_locked":
+            return "(Rel.isLocked target)", "bool"
+        if src == "destination":
+            return "dest", "engine"
+        m = {"target.engine": ("(Rel.engine target)", "engine")}
+        if src in m:
+            return m[src]
+        if src.endswith(".engine") and src[:-7] in self.env and self.env[src[:-7]][1] == "rel":
+            return f"(Rel.engine {self.env[src[:-7]][0]})", "engine"
+        for py, lean in self.rec_call.items():
+            if src.startswith(py + "(") and src.endswith(")"):
+                args = [a.strip() for a in src[len(py) + 1:-1].split(",")]
+                if args[0] in self.env and self.env[args[0]][1] == "rel":
+                    return f"({lean} {self.env[args[0]][0]})", self.ret_kind
+        return None
+
+    def expr(self, e):
+        if isinstance(e, ast.Name) and e.id == "destination":
+            return "dest", "engine"
+        return super().expr(e)
+
+    def ret(self, e):
+        src = ast.unparse(e)
+        if self.ret_kind == "bool":
+            x, t = self.expr(e)
+            if t == "bool":
+                return x
+        else:
+            if src == "None":
+                return "none"
+            x, t = self.expr(e)
+            if t == "rel":
+                return f"(some {x})"
+            if t == "optrel":
+                return x
+        raise Untranslatable(f"return {src[:50]}")
+
+    def default_end(self):
+        raise Untranslatable("control reaches the end of the function")
+
+    def match_stmt(self, s, k):
+        if ast.unparse(s.subject) != "target":
+            raise Untranslatable("match subject")
+        arms = []
+        covered: set[str] = set()
+        for case in s.cases:
+            p = case.pattern
+            if not isinstance(p, ast.MatchClass) or p.patterns:
+                raise Untranslatable(f"relation pattern {ast.unparse(p)}")
+            kname = ast.unparse(p.cls)
+            bind = None
+            for attr, sub in zip(p.kwd_attrs, p.kwd_patterns):
+                if attr != "target" or not (isinstance(sub, ast.MatchAs) and sub.name and sub.pattern is None):
+                    raise Untranslatable(f"relation keyword pattern {attr}")
+                bind = sub.name
+            kinds = MARKERS if kname == "MarkerRelation" else [kname]
+            for kd in kinds:
+                if kd in covered or kd not in REL_CTORS:
+                    if kd not in REL_CTORS:
+                        raise Untranslatable(f"relation class {kd}")
+                    continue
+                covered.add(kd)
+                saved = dict(self.env)
+                pat = REL_CTORS[kd].format(t=bind or "_")
+                if bind:
+                    self.env[bind] = (bind, "rel")
+                body = self.block(case.body, k)
+                self.env = saved
+                # `target` stays the whole matched value: the arm re-binds it with an as-pattern
+                arms.append(f"| target@({pat}) => {body}")
+        arms.append(f"| _ => {k()}")
+        return f"(match target with {' '.join(arms)})"
+
+    def lean(self):
+        return self.sig + "\n  " + self.block(self.fdef.body, self.default_end)
+
+
+class ChainMethod(Method):
+    def __init__(self, cls):
+        self.cls = cls
+        self.cname = "Chain"
+        self.name = "_begin_apply"
+        f = inspect.getattr_static(cls, "_begin_apply")
+        src = textwrap.dedent(inspect.getsource(f))
+        self.fdef = next(n for n in ast.walk(ast.parse(src)) if isinstance(n, ast.FunctionDef))
+        self.env = {}
+        self.counter = 0
+
+    def special(self, src):
+        return {"lhs.engine": ("(Rel.engine lhs)", "engine"), "rhs.engine": ("(Rel.engine rhs)", "engine"),
+                "lhs.columns": ("(Rel.columns lhs)", "cols"), "rhs.columns": ("(Rel.columns rhs)", "cols")}.get(src)
+
+    def ret(self, e):
+        if ast.unparse(e) == "self":
+            return "(Except.ok BOp.chain)"
+        raise Untranslatable("return in Chain._begin_apply")
+
+    def default_end(self):
+        raise Untranslatable("control reaches the end of the function")
+
+    def lean(self):
+        return ("def Chain_begin_apply (lhs rhs : Rel) : Except Err BOp :=\n  "
+                + self.block(self.fdef.body, self.default_end))
+
+
+def gen_rel_ops(problems: list[str]) -> str:
+    import lsst.daf.relation as r
+    from lsst.daf.relation._operations._join import PartialJoin
+
+    out = ["/- GENERATED by harness/extract_ops.py from the current source -- do not edit. -/",
+           "import DafRel.Gen.OpsSupport", "import DafRel.Model.Apply", "",
+           "set_option linter.unusedVariables false", "", "namespace DafRel.Gen", "open DafRel", ""]
+    jobs = [
+        ("PartialJoin.columns_required", lambda: PJoinMethod(PartialJoin, "columns_required"),
+         "def PartialJoin_columns_required (p : PJoin) : Cols :=\n  []"),
+        ("PartialJoin.commute", lambda: PJoinMethod(PartialJoin, "commute"),
+         "def PartialJoin_commute (p : PJoin) (cur : UOp) (tcols ccols : Cols) : Option PJoin × UOp × Bool :=\n"
+         "  (none, UOp.identity, true)"),
+        ("Materialization.simplify",
+         lambda: RelMethod(r.Materialization, "simplify", "Materialization_simplify",
+                           "def Materialization_simplify (target : Rel) : Bool :=",
+                           {"cls.simplify": "Materialization_simplify"}, "bool"),
+         "def Materialization_simplify (target : Rel) : Bool :=\n  false"),
+        ("Transfer.simplify",
+         lambda: RelMethod(r.Transfer, "simplify", "Transfer_simplify",
+                           "def Transfer_simplify (dest : Engine) (target : Rel) : Option Rel :=",
+                           {"cls.simplify": "Transfer_simplify dest"}, "optrel"),
+         "def Transfer_simplify (dest : Engine) (target : Rel) : Option Rel :=\n  none"),
+        ("Chain._begin_apply", lambda: ChainMethod(r.Chain),
+         "def Chain_begin_apply (lhs rhs : Rel) : Except Err BOp :=\n  Except.error Err.fuel"),
+    ]
+    for what, make, stub in jobs:
+        try:
+            out.append(make().lean())
+        except Untranslatable as e:
+            problems.append(f"{what}: {e}")
+            out.append(stub + "  -- UNTRANSLATABLE: " + str(e))
+        except Exception as e:  # noqa: BLE001
+            problems.append(f"{what}: translator error {type(e).__name__}: {e}")
+            out.append(stub + "  -- UNTRANSLATABLE")
+        out.append("")
+    out.append("end DafRel.Gen")
+    return "\n".join(out) + "\n"
+
+
 STUB = {
     "commute": "(UOp.Commutator.mk none UOp.identity true)",
     "simplify": "(Except.error Err.fuel)",
@@ -456,7 +741,8 @@ def gen_ops(problems: list[str]) -> str:
 
 
 if __name__ == "__main__":
+    import sys
     probs: list[str] = []
-    print(gen_ops(probs))
+    print(gen_rel_ops(probs) if len(sys.argv) > 1 and sys.argv[1] == "rel" else gen_ops(probs))
     for p in probs:
         print("UNTRANSLATABLE", p)
